@@ -327,7 +327,7 @@ def registration_contracts(chk: Check) -> None:
         ex = Executor("reg")
         has0, val0 = z3.Array("par_has0", Obj, z3.BoolSort()), z3.Array("par_val0", Obj, Obj)
         pars = Rec("Mapping", {"__map__": SMap(has0, val0)})
-        self_rec = Rec("Builder", {"naming": Rec("Naming", {}), "__ingredients": Rec("Ingredients", {"parameter_defaults": pars})})
+        self_rec = Rec("Builder", {"naming": Rec("Naming", {}), "__ingredients": Rec("Ingredients", {"parameter_defaults": pars})}, real_class=H.HelicityAmplitudeBuilder)
         suffix = z3.Const("suffix", Obj)
         symf = z3.Function("Symbol_of_name", Obj, Obj)
         fstr = z3.Function("fstring", Obj, Obj)
